@@ -27,7 +27,7 @@ def _run_native(bin_name, args, features=None, timeout=900):
 _playbacks_done = 0
 
 
-def kani_playback(feature, harness, kernel=False):
+def kani_playback(feature, harness, kernel=False, full=None):
     """Kani concrete playback: obtain the counterexample as a unit test, run it natively against the real code."""
     import shutil
     from . import kani_engine as K
@@ -38,7 +38,7 @@ def kani_playback(feature, harness, kernel=False):
         K.generate()
         crate, target, fflags, zflags = K.KX, K.KTARGET, ["--features", feature], ["-Z", "stubbing", "-Z", "unstable-options"]
     cmd = ["cargo", "kani"] + fflags + zflags + ["-Z", "concrete-playback", "--concrete-playback=print",
-           "--harness-timeout", "900s", "--output-format", "terse", "--harness", harness]
+           "--harness-timeout", "900s", "--output-format", "terse", "--harness", full or harness] + (["--exact"] if full else [])
     rc, so, se, wall = sh(cmd, cwd=crate, timeout=1500, env=env_offline({"CARGO_TARGET_DIR": target}))
     m = re.search(r"```\n(.*?#\[test\].*?)```", so, re.S)
     if not m:
@@ -65,6 +65,7 @@ def kani_playback(feature, harness, kernel=False):
     cmd2 = ["cargo", "kani", "playback", "-Z", "concrete-playback"] + fflags + ["--", tname]
     rc2, so2, se2, wall2 = sh(cmd2, cwd=dst, timeout=1500, env=env_offline({"CARGO_TARGET_DIR": os.path.join(BUILD, "playback-target")}))
     out = so2 + se2
+    open(os.path.join(BUILD, "playback", "last_output.txt"), "w").write(out)
     shutil.rmtree(dst, ignore_errors=True)
     failed = bool(re.search(r"test result: FAILED|panicked at", out))
     passed = bool(re.search(r"test result: ok\. 1 passed", out))
@@ -89,7 +90,7 @@ def attempt(prop, ob):
         if ob.engine in ("K", "G", "KT") and ob.extra.get("playback"):
             return ob.extra["playback"]
         if ob.engine == "KT" and ob.extra.get("harness"):
-            r = kani_playback("", ob.extra["harness"], kernel=True)
+            r = kani_playback("", ob.extra["harness"], kernel=True, full=ob.extra.get("harness_full"))
             # decode the ASCII string of the counterexample for readability
             try:
                 vals = r.get("concrete_values_in_order_of_kani_any", [])
@@ -105,7 +106,7 @@ def attempt(prop, ob):
             if _playbacks_done >= 3:
                 return {"reproduced": False, "method": "concrete playback limited to 3 refutations per run; see the other replay files of this run"}
             _playbacks_done += 1
-            return kani_playback(ob.extra["feature"], ob.extra["harness"])
+            return kani_playback(ob.extra["feature"], ob.extra["harness"], full=ob.extra.get("harness_full"))
         if prop == "C05" and ob.engine == "V":
             rc, so, se, wall = _run_native("replay_c05", [])
             m = re.search(r"^COUNTEREXAMPLE (.*)$", so, re.M)
